@@ -54,6 +54,7 @@ type Control struct {
 	APIAt    []uint32 `json:"apiAt"`  // heights after which the API is queried (default: the tip)
 	APILight []uint32 `json:"apiLight"` // heights after which only the ledger-level read methods are queried (issuance, rates, rich lists, bank)
 	AllHist  bool     `json:"allHist"`
+	LegacySchema string `json:"legacySchema"` // "pre-v4" | "pre-v5": the balance table predates those asset lists and is migrated at start-up
 }
 
 type traceWriter struct {
@@ -104,6 +105,7 @@ func cmdRun(args []string) {
 		die(70, "runner: %v", err)
 	}
 	r.Wal = ctl.Wal
+	r.LegacySchema = ctl.LegacySchema
 	f, err := os.Create(*out)
 	if err != nil {
 		die(70, "%v", err)
